@@ -383,7 +383,7 @@ def check_c07_monotone(root_k, k, root_k1, tap_k1, report, counts):
 # C08
 
 
-def check_c08(root, tap, report, counts, r=None, limit=20, registry=None):
+def check_c08(root, tap, report, counts, r=None, limit=20, registry=None, tail=0):
     from multidecoder.multidecoder import Multidecoder
     from multidecoder.node import Node
 
@@ -396,10 +396,12 @@ def check_c08(root, tap, report, counts, r=None, limit=20, registry=None):
         if D is root or D.parent is None or id(D) not in top:
             continue
         cands.append((D, k - lv))
+    last = cands[len(cands) - tail:] if tail else []  # the latest decoded nodes in document order: budgets run out there
     if r is not None and len(cands) > limit:
         cands = r.sample(cands, limit)
     else:
         cands = cands[:limit]
+    cands += [c for c in last if not any(c[0] is x[0] for x in cands)]
     fresh_md = Multidecoder(decoders=list(registry if registry is not None else tap.originals))
     for D, remaining in cands:
         got = tree.canon_children(D)
